@@ -10,6 +10,8 @@ mod engine_world;
 mod kit;
 mod sim_a;
 mod sim_b;
+mod sim_c;
+mod sim_client;
 mod sim_f;
 mod world;
 
@@ -30,6 +32,8 @@ fn dispatch_run(prop: &str, opts: &Opts) -> i32 {
         "C15" => kit::run_batch(&sim_b::SimB { prop: sim_b::PropB::C15 }, opts).exit_code,
         "C19" => kit::run_batch(&sim_b::SimB { prop: sim_b::PropB::C19 }, opts).exit_code,
         "C10" => kit::run_batch(&sim_f::SimF, opts).exit_code,
+        "C07" => kit::run_batch(&sim_c::SimC7, opts).exit_code,
+        "C04" => kit::run_batch(&sim_c::SimC4, opts).exit_code,
         other => {
             eprintln!("HARNESS-ERROR: no simulator registered for property {other}");
             2
@@ -47,6 +51,8 @@ fn dispatch_replay(file: &serde_json::Value, verif_dir: &str) -> i32 {
         "C15" => kit::replay(&sim_b::SimB { prop: sim_b::PropB::C15 }, file, verif_dir),
         "C19" => kit::replay(&sim_b::SimB { prop: sim_b::PropB::C19 }, file, verif_dir),
         "C10" => kit::replay(&sim_f::SimF, file, verif_dir),
+        "C07" => kit::replay(&sim_c::SimC7, file, verif_dir),
+        "C04" => kit::replay(&sim_c::SimC4, file, verif_dir),
         other => {
             eprintln!("HARNESS-ERROR: no simulator registered for property {other}");
             2
